@@ -34,20 +34,23 @@ theorem slice_at (b : Buf) (h : WF b) (pre s rest : Bytes) (hd : b.data = pre ++
   rw [k_sliceAtEnd _ _ (by omega) (by omega)]
   have h1 : ¬ b.offset ≤ pre.length := by omega
   simp only [h1, decide_false, Bool.false_eq_true, if_false]
-  have h2 : ¬ pre.length + 8 > b.data.length := by omega
-  simp only [h2, if_false]
   have hdrop : b.data.drop pre.length = be64 (w s.length) ++ (s ++ rest) := by
     rw [hd, List.append_assoc, List.drop_left]; unfold enc; simp
-  rw [hdrop, getU64_slice_be64]
+  have hdl : (be64 (w s.length) ++ (s ++ rest)).length = 8 + s.length + rest.length := by
+    simp only [List.length_append, be64_length]; omega
+  simp only [hdrop, lenGe_eq, hdl]
+  have h2 : 8 ≤ 8 + s.length + rest.length := by omega
+  simp only [h2, decide_true, Bool.not_true, Bool.false_eq_true, if_false]
+  rw [getU64_slice_be64]
   rw [k_sliceStart, k_sliceNext, toNat_w _ (by omega), toNat_w _ (by omega)]
-  have h3 : pre.length + 8 ≤ pre.length + 8 + s.length ∧ pre.length + 8 + s.length ≤ b.data.length := by omega
-  simp only [h3, and_self, if_true]
-  have hres : (b.data.drop (pre.length + 8)).take (pre.length + 8 + s.length - (pre.length + 8)) = s := by
-    have : b.data = (pre ++ be64 (w s.length)) ++ (s ++ rest) := by rw [hd]; unfold enc; simp
-    rw [this, show pre.length + 8 = (pre ++ be64 (w s.length)).length by rw [List.length_append, be64_length],
-      List.drop_left]
-    rw [show (pre ++ be64 (w s.length)).length + s.length - (pre ++ be64 (w s.length)).length = s.length by omega]
-    exact List.take_left
+  have h3 : pre.length ≤ pre.length + 8 := by omega
+  have h3' : pre.length + 8 ≤ pre.length + 8 + s.length := by omega
+  have h3'' : pre.length + 8 + s.length - pre.length ≤ 8 + s.length + rest.length := by omega
+  simp only [h3, h3', h3'', decide_true, and_self, if_true]
+  have hres : ((be64 (w s.length) ++ (s ++ rest)).drop (pre.length + 8 - pre.length)).take
+      (pre.length + 8 + s.length - (pre.length + 8)) = s := by
+    rw [show pre.length + 8 - pre.length = (be64 (w s.length)).length by rw [be64_length]; omega, List.drop_left,
+      show pre.length + 8 + s.length - (pre.length + 8) = s.length by omega, List.take_left]
   rw [hres, k_sliceIsLast _ _ (by omega) (by omega)]
   by_cases hr : rest = []
   · subst hr
